@@ -300,5 +300,197 @@ theorem castList_float_arith (op : Arith) (f : Nat → Val) (b : Val) : ∀ us :
 
 theorem wf_fresh (k : Kind) (nv : Val) (d : Default) : WF 0 (fresh k nv d) := ⟨rfl, rfl, by simp [fresh]⟩
 
+/-- per-operation balance of the number alive (stated as `C10_balance` in Props/C10.lean) -/
+theorem balance_ops (p : People) (inv : Inv p) :
+    (∀ k s, OpOk p (.grow k s) → aliveCount (step p (.grow k s)) = aliveCount p + k) ∧
+    aliveCount (step p .stepDie) + diedNow p = aliveCount p ∧
+    (∀ us, OpOk p (.requestDeath us) → aliveCount (step p (.requestDeath us)) = aliveCount p) ∧
+    aliveCount (step p .updateResults) = aliveCount p ∧
+    aliveCount (step p .removeDead) = aliveCount p ∧
+    aliveCount (step p .finishStep) = aliveCount p := by
+  refine ⟨?_, ?_, ?_, rfl, ?_, ?_⟩
+  · intro k s hok
+    obtain ⟨p', h, _, _, hau, _, _, _, hold, hnew, _⟩ := grow_step p k s inv hok
+    have e : step p (.grow k s) = p' := by simp [step, stepE, h]
+    rw [e, aliveCount_eq, aliveCount_eq, hau, List.filter_append, List.length_append]
+    congr 1
+    · congr 1
+      apply List.filter_congr
+      intro u hu; rw [(hold u (inv.active u hu)).1]
+    · by_cases hk : k = 0
+      · simp [hk]
+      · simp only [hk, ↓reduceIte]
+        rw [List.filter_eq_self.mpr]
+        · simp
+        · intro u hu
+          have := (mem_newIds p.n k u).mp hu
+          rw [(hnew u this.1 this.2).1]; rfl
+  · obtain ⟨p', h, _, _, hau, _, _, _, _, _, hal⟩ := stepDie_step p inv
+    have e : step p .stepDie = p' := by simp [step, stepE, h]
+    rw [e, aliveCount_eq, aliveCount_eq, hau, diedNow]
+    have h1 : p.auids.filter (fun u => (p'.alive.cell u).truthy) =
+        p.auids.filter (fun u => !(cmpVal .le (p.tiDead.cell u) (tiVal p.ti)).truthy && (p.alive.cell u).truthy) := by
+      apply List.filter_congr
+      intro u hu
+      rw [hal u]
+      have hin : inRange p.tiDead p.auids = true := by
+        simp only [inRange, List.all_eq_true, decide_eq_true_eq]
+        intro x hx; have := inv.active x hx; have := inv.tiDead.le; omega
+      have hm : u ∈ deathUids p ↔ (cmpVal .le (p.tiDead.cell u) (tiVal p.ti)).truthy = true := by
+        simp only [deathUids, C11.C11_compare_true p.auids p.tiDead .le (tiVal p.ti) inv.nodup hin, List.mem_filter, hu, true_and]
+      by_cases hq : (cmpVal .le (p.tiDead.cell u) (tiVal p.ti)).truthy = true
+      · have hd := hm.mpr hq
+        simp only [hd, ↓reduceIte, hq, Bool.not_true, Bool.false_and]
+        rfl
+      · have : u ∉ deathUids p := fun hh => hq (hm.mp hh)
+        simp [this, hq]
+    have hin : inRange p.tiDead p.auids = true := by
+      simp only [inRange, List.all_eq_true, decide_eq_true_eq]
+      intro x hx; have := inv.active x hx; have := inv.tiDead.le; omega
+    have h2 : (deathUids p).filter (fun u => (p.alive.cell u).truthy) =
+        p.auids.filter (fun u => (cmpVal .le (p.tiDead.cell u) (tiVal p.ti)).truthy && (p.alive.cell u).truthy) := by
+      simp only [deathUids, C11.C11_compare_true p.auids p.tiDead .le (tiVal p.ti) inv.nodup hin, List.filter_filter]
+      apply List.filter_congr; intro u _; exact Bool.and_comm _ _
+    rw [h1, h2]
+    exact filter_split_length p.auids _ _
+  · intro us hok
+    obtain ⟨p', h, _, _, hau, hal, _⟩ := request_step p us inv hok
+    have e : step p (.requestDeath us) = p' := by simp [step, stepE, h]
+    rw [e, aliveCount, aliveCount, hau, hal]
+  · obtain ⟨p', h, _, _, hau, hal, _⟩ := removeDead_step p inv
+    have e : step p .removeDead = p' := by simp [step, stepE, h]
+    rw [e, aliveCount_eq, aliveCount_eq, hau, hal, List.filter_filter]
+    simp
+  · obtain ⟨p', h, _, _, hau, hal, _⟩ := removeDead_step p inv
+    have hs : stepE p .finishStep = .ok { p' with ti := p'.ti + 1 } := by simp [stepE, finishStep, h, bind, Except.bind, pure, Except.pure]
+    simp only [step, hs]
+    show count p'.auids p'.alive = _
+    have := aliveCount_eq p'
+    simp only [aliveCount] at this
+    rw [this, aliveCount_eq, hau, hal, List.filter_filter]
+    simp
+
+
+/-! ### Whole steps of the loop: what module code (create agents / request deaths) does between the People phases -/
+
+theorem run_append (p : People) (a b : List Op) : run p (a ++ b) = run (run p a) b := by
+  simp [run, List.foldl_append]
+
+theorem validRun_append : ∀ (a b : List Op) (p : People), ValidRun p (a ++ b) ↔ ValidRun p a ∧ ValidRun (run p a) b
+  | [], b, p => by simp [ValidRun, run]
+  | op :: a, b, p => by
+      simp only [List.cons_append, ValidRun, run, List.foldl_cons]
+      have := validRun_append a b (step p op)
+      simp only [run] at this
+      rw [this, and_assoc]
+
+theorem stamped_self (ti : Int) : (cmpVal .le (tiVal ti) (tiVal ti)).truthy = true := by
+  simp [cmpVal, tiVal, Val.isUndef, Val.toRat?, Val.truthy]
+
+/-- what one operation of module code (create agents / request deaths) does to a consistent population -/
+theorem moduleOp_step (p : People) (inv : Inv p) (op : Op) (hm : IsModuleOp op = true) (hok : OpOk p op) :
+    Inv (step p op) ∧ (step p op).ti = p.ti ∧ (step p op).nAlive = p.nAlive ∧ p.n ≤ (step p op).n ∧
+    (∀ u, u ∈ p.auids → u ∈ (step p op).auids) ∧
+    (∀ u, u < p.n → Stamped p u = true → Stamped (step p op) u = true) ∧
+    (∀ u, u < p.n → p.alive.cell u = .bool false → (step p op).alive.cell u = .bool false) ∧
+    (∀ us, op = .requestDeath us → ∀ u ∈ us, Stamped (step p op) u = true) ∧
+    aliveCount (step p op) = aliveCount p + created [op] := by
+  cases op with
+  | grow k s =>
+      obtain ⟨p', h, i, hn, hau, hti, hna, _, hold, _⟩ := grow_step p k s inv hok
+      have e : step p (.grow k s) = p' := by simp [step, stepE, h]
+      have hb := (balance_ops p inv).1 k s hok
+      rw [e] at hb ⊢
+      refine ⟨i, hti, hna, by omega, fun u hu => by rw [hau]; exact List.mem_append_left _ hu, ?_, ?_, ?_, ?_⟩
+      · intro u hu hs; simp only [Stamped, hti, (hold u hu).2.1] at hs ⊢; exact hs
+      · intro u hu hd; rw [(hold u hu).1]; exact hd
+      · intro us hus; cases hus
+      · simpa [created] using hb
+  | requestDeath us =>
+      obtain ⟨p', h, i, hn, hau, hal, hti, hna, _, _, htd⟩ := request_step p us inv hok
+      have e : step p (.requestDeath us) = p' := by simp [step, stepE, h]
+      rw [e]
+      refine ⟨i, hti, hna, by omega, fun u hu => by rw [hau]; exact hu, ?_, ?_, ?_, ?_⟩
+      · intro u _ hs
+        simp only [Stamped, hti, htd u] at hs ⊢
+        by_cases hx : u ∈ us
+        · simp only [hx, ↓reduceIte]; exact stamped_self p.ti
+        · simpa [hx] using hs
+      · intro u _ hd; rw [hal]; exact hd
+      · intro us' hus u hu
+        cases hus
+        simp only [Stamped, hti, htd u, hu, ↓reduceIte]; exact stamped_self p.ti
+      · simp [aliveCount, hau, hal, created]
+  | stepDie => cases hm
+  | updateResults => cases hm
+  | removeDead => cases hm
+  | finishStep => cases hm
+
+theorem created_cons (op : Op) (ops : List Op) : created (op :: ops) = created [op] + created ops := by
+  cases op <;> simp [created]
+
+/-- ... and a whole list of them (everything the modules do between two phases of the loop) -/
+theorem moduleOps_run : ∀ (ops : List Op) (p : People), Inv p → (∀ op ∈ ops, IsModuleOp op = true) → ValidRun p ops →
+    Inv (run p ops) ∧ (run p ops).ti = p.ti ∧ (run p ops).nAlive = p.nAlive ∧ p.n ≤ (run p ops).n ∧
+    (∀ u, u ∈ p.auids → u ∈ (run p ops).auids) ∧
+    (∀ u, u < p.n → Stamped p u = true → Stamped (run p ops) u = true) ∧
+    (∀ u, u < p.n → p.alive.cell u = .bool false → (run p ops).alive.cell u = .bool false) ∧
+    (∀ us, .requestDeath us ∈ ops → ∀ u ∈ us, Stamped (run p ops) u = true) ∧
+    aliveCount (run p ops) = aliveCount p + created ops
+  | [], p, inv, _, _ => ⟨inv, rfl, rfl, Nat.le_refl _, fun _ h => h, fun _ _ h => h, fun _ _ h => h, fun _ h => (by cases h), (by simp [run, created])⟩
+  | op :: ops, p, inv, hm, hv => by
+      obtain ⟨i1, t1, a1, n1, m1, s1, d1, r1, c1⟩ := moduleOp_step p inv op (hm op (List.mem_cons_self ..)) hv.1
+      obtain ⟨i2, t2, a2, n2, m2, s2, d2, r2, c2⟩ := moduleOps_run ops (step p op) i1 (fun o ho => hm o (List.mem_cons_of_mem _ ho)) hv.2
+      have e : run p (op :: ops) = run (step p op) ops := by simp [run]
+      rw [e]
+      refine ⟨i2, by rw [t2, t1], by rw [a2, a1], by omega, fun u hu => m2 u (m1 u hu), fun u hu hs => s2 u (by omega) (s1 u hu hs),
+        fun u hu hd => d2 u (by omega) (d1 u hu hd), ?_, by rw [c2, c1, created_cons op ops]; omega⟩
+      intro us hus u hu
+      rcases List.mem_cons.mp hus with h | h
+      · have hlt : u < p.n := by
+          have := hv.1; rw [← h] at this; exact this u hu
+        exact s2 u (by omega) (r1 us h.symm u hu)
+      · exact r2 us h u hu
+
+/-- an active agent that carries a due stamp is among the agents `step_die` resolves -/
+theorem stamped_dies (p : People) (inv : Inv p) (u : Nat) (hact : u ∈ p.auids) (hs : Stamped p u = true) : u ∈ deathUids p := by
+  have hin : inRange p.tiDead p.auids = true := by
+    simp only [inRange, List.all_eq_true, decide_eq_true_eq]
+    intro x hx; have := inv.active x hx; have := inv.tiDead.le; omega
+  simp only [deathUids, C11.C11_compare_true p.auids p.tiDead .le (tiVal p.ti) inv.nodup hin, List.mem_filter]
+  exact ⟨hact, hs⟩
+
+
+/-- module code issues module operations only, at every row that is not a People / clock row -/
+theorem planOps_modules (acts : String → String → List Op) (hacts : ∀ c m, ∀ op ∈ acts c m, IsModuleOp op = true)
+    (rows : List PlanRow) (h : ∀ r ∈ rows, r.1 ≠ "sim.people") : ∀ op ∈ planOps acts rows, IsModuleOp op = true := by
+  intro op hop
+  simp only [planOps, List.mem_flatMap] at hop
+  obtain ⟨r, hr, hin⟩ := hop
+  have hne := h r hr
+  by_cases h1 : r.1 = "sim"
+  · by_cases h2 : r.2.1 = "start_step"
+    · simp [slotOf, h1, h2] at hin
+    · by_cases h3 : r.2.1 = "finish_step" <;> simp [slotOf, h1, h2, h3] at hin
+  · simp [slotOf, hne, h1] at hin
+    exact hacts _ _ op hin
+
+theorem scheduled_sub (g : String → Bool) (rows : List PlanRow) : ∀ r ∈ scheduled g rows, r ∈ rows :=
+  fun _ hr => (List.mem_filter.mp hr).1
+
+instance (p : People) (op : Op) : Decidable (OpOk p op) :=
+  match op with
+  | .grow k none => isTrue (by intro s h; cases h)
+  | .grow k (some s) => decidable_of_iff (s.length = k) (by simp [OpOk])
+  | .requestDeath us => (inferInstance : Decidable (∀ u ∈ us, u < p.n))
+  | .stepDie => isTrue trivial
+  | .updateResults => isTrue trivial
+  | .removeDead => isTrue trivial
+  | .finishStep => isTrue trivial
+
+instance instDecidableValidRun : (p : People) → (ops : List Op) → Decidable (ValidRun p ops)
+  | _, [] => isTrue trivial
+  | p, op :: ops => @instDecidableAnd _ _ _ (instDecidableValidRun (step p op) ops)
+
 
 end StarsimModel.C10
